@@ -1435,7 +1435,9 @@ class Stage:
             ret._constraints[k] = list(zip(r, [merge_meta(m, get_meta()) for _, m, _ in v], [d for _, _, d in v]))
             r = r[len(v):]
 
-        ret._initial = HashOrderedDict(zip(res[n_constr+1:], self._initial.values()))
+        # Guesses given as expressions of time refer to the template's placeholders as well
+        initial_values = [substitute([v], subst_from, subst_to)[0] if isinstance(v, MX) else v for v in self._initial.values()]
+        ret._initial = HashOrderedDict(zip(res[n_constr+1:], initial_values))
 
         if "T" not in kwargs:
             ret._T = copy(self._T)
